@@ -10,6 +10,7 @@ _SPECIAL_NAMES = [
     "\u00e4", "\u00c4", "e\u0301a", "\u00e9a", "\u65e5\u672c\u8a9e", "\u4e2d", "\U0001f600", "\U0001f3acclip",
     "\u05e9\u05dc\u05d5\u05dd", "a\u00a0b", "a\u3000b", "#hash", "!bang", "star*",
     "q?", "[br]", "back\\slash", "semi;colon", "%41", "$HOME", "~", "-dash", "--opt", "a,b", "a=b", "@at", "`tick`",
+    "Reel[A001]", "card[2]", "x[!a]y", "{a,b}", "reel%d", "100%", "%H%M", "day%Y_%m", "%", "%%", "a\\b",
     "s", "s2", "s.txt", "S", "Stuff.txt", "0001_x.mhl", "ascmhl2", "ascmh", "xascmhl", "ascmhl_chain.xml", "DS_Store",
     "a\u200bb", "\ufb01", "n\u0303", "\u00f1", "\u043a\u0438\u0440", "\u03b5\u03bb", " ", "  ", "tab.tar.gz", "CON", "aux.",
 ]
